@@ -33,7 +33,8 @@ constexpr bool lem_c12_acos(fixed_t x)
   {
   fixed_t c = acos(x);
   if( x.v > 65536 || x.v < -65536 ) return vf_isnan(c);
-  return c.v == PHI2 - asin(x).v && c.v >= -1 && c.v <= PHI + 1;     // PHI2 = 102943 is within 1 ulp of pi/2 = 102943.7 raw
+  long s = c.v + asin(x).v;        // pi/2 = 102943.70 raw: within 1 ulp  <=>  s in {102943, 102944}
+  return (s == 102943 || s == 102944) && c.v >= -1 && c.v <= PHI + 1;
   }
 }
 inline void inst_c12(fixed_t x) { (void)asin(x); (void)acos(x); }
